@@ -23,7 +23,7 @@ RULE = (
     "counted separately: from the partner component (axis-swapping link) and with a sign change"
 )
 SPACE = {
-    "quick": "domains 2x1,1x2,2x2,3x1 (N=2) and 2x1,1x2 (N=3) x 3 periodicities x all 4^K rotation assignments (all-links-non-reversed kept) x {diff,interp} x both components x 6 layouts (the partner in a different dimension order than the component), for half of the layouts the Grid keeps its default (periodic) rule and the rule comes with each call, each evaluated twice on the same Grid with the same array objects overwritten in place; grids without face connections: 2 ops x 2 comps x 3 rules x 3 layouts",
+    "quick": "domains 2x1,1x2,2x2,3x1 (N=2) and 2x1,1x2 (N=3) x 3 periodicities x all 4^K rotation assignments (all-links-non-reversed kept) x {diff,interp} (direct calls and the *_2d_vector wrappers) x both components x 6 layouts (the partner in a different dimension order than the component), for half of the layouts the Grid keeps its default (periodic) rule and the rule comes with each call, each evaluated twice on the same Grid with the same array objects overwritten in place; grids without face connections: 2 ops x 2 comps x 3 rules x 3 layouts",
     "thorough": "+ 2x2,3x1,1x3 at N=3, 2x3 at N=2, all layouts for every case",
 }
 BOUNDS = {"quick": {"N": [2, 3]}, "thorough": {"N": [2, 3]}}
@@ -105,6 +105,8 @@ def run_case(rec, Kx, Ky, N, per, orient, op, li, seed, pre=None):
         fields.append((U, V, u, v))
     if li % 2:
         table = {f: dict(reversed(list(table[f].items()))) for f in reversed(list(table))}
+    # the reverse flags as Python bools, numpy booleans or 0/1: the same topology
+    table = T.respell_flags(table, li + len(op) + len(orient) + Kx)
     try:
         percall = li in (1, 2, 5)
         ckw = dict(boundary="fill", fill_value=0.0) if percall else {}
@@ -145,6 +147,20 @@ def run_case(rec, Kx, Ky, N, per, orient, op, li, seed, pre=None):
     edims = [m[d] for d in layout]
     if list(ru.dims) != edims or list(rv.dims) != edims:
         rec.violation("vector-op", "dims", case, edims, [list(ru.dims), list(rv.dims)])
+        return
+    # the two-component wrappers (both components in one mapping, either key order) give the same pair of answers
+    try:
+        vec = {"X": ua, "Y": va} if (li + len(orient)) % 2 == 0 else {"Y": va, "X": ua}
+        # (not in the mixed-precision variant: there the partner handed to the direct call is held in another precision)
+        r2 = getattr(g, op + "_2d_vector")(vec, **ckw) if not single else {"X": ru, "Y": rv}
+        rec.calls += 1
+        for comp, direct in (("X", ru), ("Y", rv)):
+            w = r2[comp]
+            if set(w.dims) != set(direct.dims) or not np.array_equal(w.transpose(*direct.dims).values, direct.values):
+                rec.violation("vector-op", f"{op}_2d_vector-differs-from-{op}:{comp}-component", case, direct.values, w.transpose(*direct.dims).values if set(w.dims) == set(direct.dims) else list(w.dims))
+                return
+    except Exception as e:
+        rec.violation("vector-op", f"raise:{op}_2d_vector:" + exc_sig(e), case, "mapping of two arrays", f"{type(e).__name__}: {e}"[:200])
         return
     results = [(ru, rv)]
     if "t" not in layout and not single:
